@@ -13,7 +13,8 @@ Open Scope list_scope.
    the field's definition, sub-selections ([] = a nil SelectionSet) *)
 Inductive psel :=
 | PField (alias name ty : string) (sub : list psel)
-| PInline (cond : string) (sub : list psel).
+| PInline (cond : string) (sub : list psel)
+| PNode (cond : string) (sub : list psel).     (* the gateway's own  node(id: $id) { ... on cond { sub } } *)
 
 Inductive step := mkStep (url parent : string) (ip : list string) (sels : list psel) (thens : list step).
 Definition s_url (s : step) := match s with mkStep u _ _ _ _ => u end.
@@ -39,12 +40,13 @@ Inductive res (A : Type) := Ok (a : A) | Err | Fuel | OutOfModel.
 Arguments Ok {A} a. Arguments Err {A}. Arguments Fuel {A}. Arguments OutOfModel {A}.
 
 Definition key_of (s : psel) : string :=
-  match s with PField a n _ _ => if a =? "" then n else a | PInline _ _ => "" end.
+  match s with PField a n _ _ => if a =? "" then n else a | PInline _ _ => "" | PNode _ _ => "node" end.
 
 (* common.SelectionSetToFields(s, nil): inline fragments flattened *)
 Fixpoint flatten_sel (s : psel) : list psel :=
   match s with
   | PField _ _ _ _ => [s]
+  | PNode _ _ => [s]
   | PInline _ sub => (fix go (l : list psel) := match l with [] => [] | x :: r => flatten_sel x ++ go r end) sub
   end.
 Definition flatten (ss : list psel) : list psel := flat_map flatten_sel ss.
@@ -53,6 +55,7 @@ Definition flatten (ss : list psel) : list psel := flat_map flatten_sel ss.
 Fixpoint flatten_for_sel (dfields : list string) (dname : string) (s : psel) : list psel :=
   match s with
   | PField _ n _ _ => if mem n dfields then [s] else []
+  | PNode _ _ => if mem "node" dfields then [s] else []
   | PInline c sub =>
       if c =? dname
       then (fix go (l : list psel) := match l with [] => [] | x :: r => flatten_for_sel dfields dname x ++ go r end) sub
@@ -77,6 +80,7 @@ Definition format_iface (tm : tmap) (ps : pschema) (parent : string) (ss : list 
   let defs := possible ps parent in
   let urls := uniq_strs (flat_map (fun f => match f with
                                             | PField _ n _ _ => flat_map (fun d => match tm_get tm d n with Some u => [u] | None => [] end) defs
+                                            | PNode _ _ => flat_map (fun d => match tm_get tm d "node" with Some u => [u] | None => [] end) defs
                                             | PInline _ _ => [] end) (flatten ss)) [] in
   match urls with
   | [u] => if u =? loc then ss else typename_helper :: map (fun d => PInline d (fields_repr ps ss d)) defs
@@ -84,14 +88,16 @@ Definition format_iface (tm : tmap) (ps : pschema) (parent : string) (ss : list 
   end.
 
 (* convertSelectionSetToNodeQuery / addFieldToNodeQuery / selectionSetHasFieldNamed *)
-Definition node_query (parent : string) (ss : list psel) : list psel := [PField "" "node" "" [PInline parent ss]].
+Definition node_query (parent : string) (ss : list psel) : list psel := [PNode parent ss].
 Definition add_to_node_query (parent : string) (nq : list psel) (s : psel) : option (list psel) :=
   match nq with
-  | PField _ n _ (PInline _ inner :: _) :: _ => if n =? "node" then Some (node_query parent (inner ++ [s])) else None
+  | PNode _ inner :: _ => Some (node_query parent (inner ++ [s]))
+  | PField _ n _ (PInline _ inner :: _) :: _ =>    (* any first field called node whose first selection is a fragment *)
+      if n =? "node" then Some (node_query parent (inner ++ [s])) else None
   | _ => None
   end.
 Definition has_field_named (ss : list psel) (n : string) : bool :=
-  existsb (fun s => match s with PField _ n' _ _ => n' =? n | PInline _ _ => false end) ss.
+  existsb (fun s => match s with PField _ n' _ _ => n' =? n | PNode _ _ => "node" =? n | PInline _ _ => false end) ss.
 
 Fixpoint strs_eqb (a b : list string) : bool :=
   match a, b with [] , [] => true | x :: a', y :: b' => (x =? y) && strs_eqb a' b' | _, _ => false end.
@@ -113,6 +119,7 @@ Fixpoint extract_loop (rec : extractor) (tm : tmap) (ip : list string) (parent l
          (l : list psel) (sels : list psel) (steps : list step) : res (list psel * list step) :=
   match l with
   | [] => Ok (sels, steps)
+  | PNode _ _ :: _ => OutOfModel          (* the planner never meets its own wrapper in its input *)
   | PInline c sub :: r =>
       match rec ip c sub loc with
       | Ok (ss, cs) => extract_loop rec tm ip parent loc r (sels ++ [PInline c ss]) (steps ++ cs)
@@ -194,6 +201,7 @@ Definition root_group (tm : tmap) (parent : string) (fields : list psel) (loc : 
                     | _ => Err
                     end
                 | Ok l, PInline _ _ => Ok l
+                | Ok l, PNode _ _ => Ok l
                 | r, _ => r
                 end) (Ok []) fields.
 
